@@ -48,6 +48,10 @@ def check(repo: Repo) -> Result:
 
     r9 = res.rule("C04-R9", "whether the second operand is rescaled is decided by Unit.__eq__: scale and offset compared with a purely relative tolerance, dimensions exactly", floor=1)
     share(res, r9, "C05", lambda t: t.__dict__.update(c05.check(repo).__dict__), ["C05-R2"], want=lambda k: k == "eq-shape")
+    from rules import c17
+
+    r10 = res.rule("C04-R10", "the rescaled second operand keeps its own kind: complex data stay complex (a real cast drops the imaginary part, so the result depends on whether the operand needed rescaling)", floor=1)
+    share(res, r10, "C17", lambda t: t.__dict__.update(c17.check(repo).__dict__), ["C17-R1"], want=lambda k: k.startswith("ufunc"))
     return res
 
 
@@ -386,4 +390,5 @@ MUTANTS = [
     Mutant("rescale-entry-by-spelling", ARR, "unyt_array.__array_ufunc__", "if u0 is not u1 and u0 != u1:", "if u0 is not u1 and u0.expr != u1.expr:", ("C04-R2",)),
     Mutant("entry-without-identity-shortcut", ARR, "unyt_array.__array_ufunc__", "if u0 is not u1 and u0 != u1:", "if u0 != u1:", (), benign=True),
     Mutant("unit-eq-absolute-tolerance", UO, "Unit.__eq__", "math.isclose(self.base_value, u.base_value)", "np.isclose(self.base_value, u.base_value)", ("C04-R9",)),
+    Mutant("rescale-kind-of-left-operand", ARR, "unyt_array.__array_ufunc__", 'new_dtypekind = "c" if inp1.dtype.kind == "c" else "f"', 'new_dtypekind = "c" if inp0.dtype.kind == "c" else "f"', ("C04-R10",)),
 ]
